@@ -78,6 +78,13 @@ func NewWorld() *World {
 
 // NewWorldOn builds clients and caches on top of an existing store (used to
 // model a process restart: same cluster, fresh process state).
+// NewWorldDiscovery is NewWorld with the order of the discovery document chosen.
+func NewWorldDiscovery(subresourcesFirst bool) *World {
+	sim := vs.NewServer(Universe())
+	sim.SubresourcesFirst = subresourcesFirst
+	return NewWorldOn(sim)
+}
+
 func NewWorldOn(sim *vs.Server) *World {
 	w := &World{Sim: sim, Indexers: map[string]cache.Indexer{}, Informers: map[string]*dynamicinformer.ResourceInformer{}, Closed: map[string]*int{}}
 	w.Config = &rest.Config{Host: "http://sim.invalid", Transport: sim, QPS: -1}
